@@ -13,12 +13,14 @@ def _nontrivial(recs):
         if ev in ("call", "dep"):
             if any(g != r.get("g") for g in parked) or (ev == "call" and parked):
                 inter = True
-            if r.get("fin"):
+            if r.get("fin") is True:
                 parked.discard(r.get("g"))
             else:
                 parked.add(r.get("g"))
             if r.get("gate") in ("oup", "ver") or (ev == "dep" and r.get("dep") in ("odl", "sdl", "oup") and r.get("out") == "ok"):
                 reached = True
+        elif ev == "ret":
+            parked.discard(r.get("g"))
         elif ev == "env" and parked:
             inter = True
     return reached and inter
@@ -36,8 +38,8 @@ PROP = dict(
              allow_dead=("DepTagPut", "DepTagList", "DepOriginStat", "DepOriginDownload", "DepOriginUpload", "CallWriterHandle")),
         dict(module="RegistryDriverMC", cfg="MC_RegistryDriver_live.cfg", tiers=("thorough",), timeout=1500, coverage=False)],
     trace=dict(module="RegistryDriverTrace", cfg="RegistryDriverTrace.cfg", timeout=900),
-    trace_alt={"conc": dict(module="RegistryDriverConc", cfg="RegistryDriverConc.cfg", timeout=900, deque=True, chunk_lines=1500)},
-    chunk_lines=3600,
+    trace_alt={"conc": dict(module="RegistryDriverConc", cfg="RegistryDriverConc.cfg", timeout=900, deque=True, chunk_lines=3000)},
+    chunk_lines=6000,
     max_rejections=6,
     isolate=lambda head: (head.get("cfg") or {}).get("family", "bulk") != "bulk",
     engine_timeout={"quick": 600, "thorough": 1500},
@@ -55,7 +57,10 @@ PROP = dict(
          "wrong digests, contexts without repository; every dependency call parks and returns, in a seeded order, ok / not found / "
          "error / corrupt bytes / partial torrent; the cache evicts blobs at random; every record carries the reply and the projection "
          "(visible blobs re-hashed, partial downloads, upload sizes); two small dedicated families (cfg.family upfail / ronf) "
-         "hold the inputs of the recorded findings X01-2 / X01-1; distinct = distinct event sequences; non-trivial = a commit reached "
+         "hold the inputs of the recorded findings X01-2 / X01-1; every 4th trace is FREE-RUNNING (family conc, trace spec RegistryDriverConc): "
+         "nothing parks, 2-3 goroutines really run concurrently (each owns one upload and one handle; digests, tags, cache shared), "
+         "call / dep / ret records, a silent Lin(g) step places every segment between its surrounding records and a final record "
+         "binds the projection (linearizability at segment grain); distinct = distinct event sequences; non-trivial = a commit reached "
          "the upload or a blob was fetched through a dependency AND another caller or the environment stepped while a call was parked",
     assumptions=["caller discipline of docker's registry: a file writer is closed (Commit/Cancel/Close) before its upload is moved; "
                  "handle ids are fresh",
